@@ -8,6 +8,7 @@ package schedx
 import (
 	"bytes"
 	"fmt"
+	"os"
 	"runtime"
 	"sort"
 	"strconv"
@@ -147,6 +148,11 @@ func (s *Sched) Run(threads ...func()) (deadlock bool) {
 				break
 			}
 			idle++
+			if os.Getenv("VERIF_SCHEDX_DEBUG") != "" && idle <= 2 {
+				buf := make([]byte, 1<<20)
+				buf = buf[:runtime.Stack(buf, true)]
+				fmt.Fprintf(os.Stderr, "=== schedx idle #%d at step %d (fake time advances) ===\n%s\n", idle, s.Steps, buf)
+			}
 			if idle > 22 {
 				s.active = false
 				return true
@@ -240,6 +246,7 @@ type Stats struct {
 	Exhaustive  bool           `json:"exhaustive_within_bound"`
 	CapHit      string         `json:"cap_hit,omitempty"`
 	Deadlocks   int            `json:"deadlocks"`
+	Reproduced  string         `json:"violation_reproduced,omitempty"`
 }
 
 // HarnessError is returned for failures of the machinery (nondeterminism, divergence).
@@ -292,6 +299,22 @@ func Explore(t *testing.T, cfg Config) (*Stats, error) {
 			firstErr = &HarnessError{fmt.Sprintf("%s: %s (prefix %v)", cfg.Name, s.Diverged, prefix)}
 			return false
 		}
+		// A violation is judged on the execution that produced it (the oracle looks only at
+		// what that execution observed); it is then replayed to say how reproducible it is.
+		if cfg.Check != nil {
+			if err := cfg.Check(out, dl, s.Choices); err != nil {
+				again := 0
+				for i := 0; i < 5; i++ {
+					_, o2, d2 := RunOnce(t, cfg, s.Choices)
+					if cfg.Check(o2, d2, s.Choices) != nil {
+						again++
+					}
+				}
+				st.Reproduced = fmt.Sprintf("%d/5", again)
+				firstErr = err
+				return false
+			}
+		}
 		if st.Executions%cfg.ReplayEvery == 0 {
 			s2, out2, dl2 := RunOnce(t, cfg, s.Choices)
 			if fmt.Sprint(s.Trace) != fmt.Sprint(s2.Trace) || out != out2 || dl != dl2 {
@@ -312,12 +335,6 @@ func Explore(t *testing.T, cfg Config) (*Stats, error) {
 			st.Deadlocks++
 		}
 		st.Outcomes[out]++
-		if cfg.Check != nil {
-			if err := cfg.Check(out, dl, s.Choices); err != nil {
-				firstErr = err
-				return false
-			}
-		}
 		// preemptions used along the executed schedule up to each step
 		usedAt := used
 		for i := len(prefix); i < len(s.Choices); i++ {
